@@ -35,7 +35,10 @@ def props_of(d):
     if f == "est" or (f == "num" and op in ("EstimatedSize", "WeightedSize")) or (f == "ents" and op in ITER_OPS and not anydead):
         # derived views at quiescence: EstimatedSize, WeightedSize, iteration / Hottest / Coldest enumerate the entries present
         P.add("C05")
-    if op in LOAD_OPS and (f in ("ok", "val", "err", "res", "loads", "panic", "est") or f.startswith("proj")):
+    if op in LOAD_OPS and (f in ("ok", "val", "err", "res", "loads", "panic", "est") or f.startswith("proj") or f.startswith("ev.")):
+        P.add("C10")
+    if op in REFRESH_OPS and (f in ("est", "loads", "rrs") or f.startswith("proj") or f.startswith("ev.")):
+        # load outcomes of reloads: what a successful / failed / not-found (bulk) reload does to the cache
         P.add("C10")
     if f in ("hang", "inflight"):
         P.add("C08")
@@ -46,6 +49,17 @@ def props_of(d):
     if f in ("proj.exp", "proj.ref", "num") or (f == "ents" and op in ("GetEntry", "GetEntryQuietly")) or \
             (f == "proj.p" and cfg[1] != "none"):
         P.add("C12")
+    if f == "proj.exp":
+        # a stored deadline that differs from the due one: earlier -> the entry will be removed for Expiration before its
+        # deadline has passed (C07); later / never -> it stays observable after its deadline (C03)
+        import re as _re
+        mw, mg = _re.search(r"exp \|-> (-?\d+)", str(d.get("want", ""))), _re.search(r"exp \|-> (-?\d+)", str(d.get("got", "")))
+        if mw and mg:
+            w, g = int(mw.group(1)), int(mg.group(1))
+            if g >= 0 and (w == -1 or g < w):
+                P.add("C07")
+            if w >= 0 and (g == -1 or g > w):
+                P.add("C03")
     if f.startswith("sweep"):
         P.add("C13")
     if f.startswith("saveload"):
